@@ -13,6 +13,7 @@ from .e1 import run_e1, replay_e1
 
 class TermJobs(Jobs):
     name = 'termjobs'
+    cut_on_known_closure = False    # the closure is a what-if probe: the exploration goes on behind a known finding
 
     def bound(self, cfg):
         secs = cfg.get('secs', 1)
@@ -30,12 +31,16 @@ class TermJobs(Jobs):
             return None
         w.violations = []
         L = ledger(w)
+        out = {}
+
+        def add(v):
+            out.setdefault(v['signature'], v)
         for i in w.live():
             s = w.sups[i]
             sm = s.rpc.get_supvisors_state()
             if sm['starting_jobs'] or sm['stopping_jobs']:
-                return {'clause': 'jobs-still-in-progress', 'signature': 'C10:jobs-pending', 'observer': i,
-                        'starting': sm['starting_jobs'], 'stopping': sm['stopping_jobs'], 'rounds': B}
+                add({'clause': 'jobs-still-in-progress', 'signature': 'C10:jobs-pending', 'observer': i,
+                        'starting': sm['starting_jobs'], 'stopping': sm['stopping_jobs'], 'rounds': B})
         rv = next(m for m in w.monitors if hasattr(m, 'rv')).rv
         # abandoned starts show FATAL, abandoned stops STOPPED, with a reason, on every live instance
         for (sender, ns), t in L.starts.items():
@@ -58,13 +63,16 @@ class TermJobs(Jobs):
                 if st in (PS.STARTING, PS.BACKOFF, PS.STOPPED) or st is None:
                     if pv['statename'] != 'FATAL':
                         where = 'on-requester' if i == sender else 'on-target' if i == t else 'on-third'
-                        return {'clause': 'abandoned-start-not-fatal',
+                        if not w.sups[t].alive:
+                            where += ':target-lost'
+                        add({'clause': 'abandoned-start-not-fatal',
                                 'signature': f'C10:start-shown:{pv["statename"]}:{where}',
-                                'observer': i, 'process': ns, 'target': t, 'truth': str(st)}
+                                'observer': i, 'process': ns, 'target': t, 'truth': str(st)})
+                        continue
                     desc = self.reason(w.sups[i], ns)
                     if not desc:
-                        return {'clause': 'abandoned-start-without-reason', 'signature': 'C10:start-no-reason',
-                                'observer': i, 'process': ns}
+                        add({'clause': 'abandoned-start-without-reason', 'signature': 'C10:start-no-reason',
+                             'observer': i, 'process': ns})
         for (sender, ns, t), _ in L.stops.items():
             if not w.sups[sender].alive:
                 continue
@@ -77,10 +85,10 @@ class TermJobs(Jobs):
                     pv = process_view(w.sups[i]).get(ns)
                     if pv is not None and pv['statename'] != 'STOPPED':
                         where = 'on-requester' if i == sender else 'on-target' if i == t else 'on-third'
-                        return {'clause': 'abandoned-stop-not-stopped',
+                        add({'clause': 'abandoned-stop-not-stopped',
                                 'signature': f'C10:stop-shown:{pv["statename"]}:{where}',
-                                'observer': i, 'process': ns, 'target': t, 'truth': str(st)}
-        return None
+                                'observer': i, 'process': ns, 'target': t, 'truth': str(st)})
+        return list(out.values())
 
     @staticmethod
     def reason(s, ns):
@@ -137,6 +145,17 @@ def configs(t):
                     F=1, faults=['crash'], crashable=[1], nicks=['aa', 'zz'], T=3, cost=5))
     out.append(base('stop-target-lost', [A1], steps=2, setup=[['rpc', 0, 'start_application', ['LESS_LOADED', 'A', False]]],
                     triggers=[['rpc', 0, 'stop_application', ['A', False]]], behaviours=['stopped'],
+                    F=1, faults=['crash'], crashable=[1], nicks=['aa', 'zz'], T=3, cost=5))
+    # several commands of one sequence pending on the lost instance
+    A2x = app('A', 0, [prog('a', 1, identifiers='10.0.0.2:25001'), prog('b', 1, identifiers='10.0.0.2:25001'),
+                       prog('c', 1, identifiers='10.0.0.2:25001'), prog('e', 2)], 'CONTINUE')
+    out.append(base('start-three-on-lost-target', [A2x], steps=2, mute=[[1, 'A:a', 'start'], [1, 'A:b', 'start'],
+                                                                         [1, 'A:c', 'start']],
+                    triggers=[['rpc', 0, 'start_application', ['CONFIG', 'A', False]]], behaviours=['run'],
+                    F=1, faults=['crash'], crashable=[1], nicks=['aa', 'zz'], T=3, cost=5))
+    out.append(base('stop-three-on-lost-target', [A2x], steps=2,
+                    setup=[['rpc', 0, 'start_application', ['CONFIG', 'A', False]]],
+                    triggers=[['rpc', 0, 'stop_application', ['A', False]]], behaviours=[],
                     F=1, faults=['crash'], crashable=[1], nicks=['aa', 'zz'], T=3, cost=5))
     # events delayed by ticks (deviations) and single process jobs
     out.append(base('start-delayed-D1', [A1], steps=2, D=1, triggers=[['rpc', 0, 'start_application', ['CONFIG', 'A', False]]],
